@@ -359,9 +359,6 @@ BLOCK_COERCE_OPS = ('fillna', 'fillna_sided', 'fillna_dir', 'assign_bloc', 'assi
 
 def tag_diff(case, f):
     name = case['op']['op']
-    # (i) bloc returns (row, col) labels in block-major order
-    if name == 'bloc' and f.kind in ('layout-labels', 'layout-value'):
-        return 'bloc-label-order-depends-on-layout'
     # (ii) value-forced dtype resolution coerces the whole 2-D block
     if name in BLOCK_COERCE_OPS and f.kind == 'layout-dtype':
         return 'block-level-dtype-coercion-of-untouched-columns'
